@@ -1,11 +1,11 @@
 package s0217
 
 type G1 struct {
-	F1x0 []int64
+	F0x0 []int32
 }
 
 type T struct {
-	F0 int32
-	F1 G1
-	F2 *uint32
+	F0 []G1
+	F1 int64
+	F2 uint32
 }
